@@ -401,7 +401,7 @@ fn beta_in<F: Fld>() -> F {
 static POOL1: OnceLock<Pool<Fq>> = OnceLock::new();
 static POOL2: OnceLock<Pool<Fq2>> = OnceLock::new();
 
-pub trait HasPool: Grp {
+pub trait HasPool: crate::adapt::Ops {
     fn pool() -> &'static Pool<Self::F>;
 }
 impl HasPool for G1m {
